@@ -21,6 +21,7 @@ import subprocess
 
 import codeclab
 import gen_tables
+from checks import c13_parser
 import modelgen
 import spellgen
 import vlib
@@ -28,7 +29,8 @@ from checks import c01
 
 THEOREMS = ["Yardl.C13.spellings_build_the_same_tree", "Yardl.C13.shorthand_sound", "Yardl.C13.primitive_names_resolve_to_themselves",
             "Yardl.C13.documented_aliases", "Yardl.C13.alias_resolution_idempotent", "Yardl.C13.non_aliases_do_not_resolve",
-            "Yardl.C13.equal_plans_equal_bytes", "Yardl.C13.accepted_definitions_are_in_dependency_order"]
+            "Yardl.C13.equal_plans_equal_bytes", "Yardl.C13.accepted_definitions_are_in_dependency_order",
+            "Yardl.C13.shorthand_text_is_read_back", "Yardl.C13.printed_shorthand_builds_the_same_tree"]
 
 
 class GoTree:
@@ -67,6 +69,7 @@ def run(report, tier, seed):
         go = GoTree(inproc)
         type_level(report, lean, go, seed, 300 if quick else 6000)
         go.close()
+        c13_parser.parser_level(report, lean, inproc, seed, 400 if quick else 8000)
         package_level(report, sc, ybin, lean, seed, 3 if quick else 25)
         toposort_level(report, sc, inproc, lean, seed, 25 if quick else 300)
         lean.close()
